@@ -42,9 +42,31 @@ def check(ctx: Ctx) -> None:
     r6_unknown(ctx, leg)
     r7_sniffing(ctx, leg)
     r8_environment(ctx, eng)
+    r8_transaction_as_given(ctx)
 
 
-# --------------------------------------------------------------------------- R1
+def r8_transaction_as_given(ctx: Ctx) -> None:
+    """The transaction the rule conditions are evaluated on carries the caller's values unchanged: description, amount (with its sign: `amount < 0`
+    is how refunds are told apart, and migrated [amount>N] modifiers compare the signed value), custom fields, source, location."""
+    proj = ctx.proj
+    arith = ('call:abs', 'op:neg', 'call:round', 'call:int', 'op:*', 'op:-', 'op:+', 'op:/', 'call:upper', 'call:lower', 'call:strip', 'call:title')
+    for q in ('merchant_utils.normalize_merchant', 'merchant_utils.explain_description'):
+        f = proj.func(q)
+        fl = get_flow(proj, f)
+        built = [s for s in fl.cfg.stmts() if isinstance(s, ast.Assign) and len(s.targets) == 1 and isinstance(s.targets[0], ast.Name) and s.targets[0].id == 'transaction'
+                 and isinstance(s.value, ast.Dict)]
+        if not built:
+            ctx.unknown('C01.R8', f, 'the transaction dict handed to the rule evaluation was not found')
+        for s in built:
+            for k, v in zip(s.value.keys, s.value.values):
+                if not (isinstance(k, ast.Constant) and k.value in ('description', 'amount', 'field', 'source', 'location')):
+                    continue
+                want = {'source': 'data_source'}.get(k.value, k.value)
+                at_ = fl.atoms(v, s)
+                changed = sorted(o for o in at_ if o in arith)
+                ctx.check(f'param:{want}' in at_ and not changed, 'C01.R8', f, f'txn:{k.value}', f"transaction['{k.value}'] is the caller's {want}",
+                          f"transaction['{k.value}'] = {src(v)!r}" + (f' goes through {changed}' if changed else f' does not come from the parameter {want}') +
+                          ': the rule conditions are evaluated on another value than the statement row has', s)
 def _is_rule_list(fl, expr, at) -> bool:
     a = fl.atoms(expr, at)
     return bool(a & RULE_LIST_MARKERS)
